@@ -538,7 +538,10 @@ def run_task(prop: Any, task: Dict[str, Any]) -> Dict[str, Any]:
     # next_obs_in_extras: both settings per configuration (alternating over the shards, starting point per config)
     flag = bool((shard + util.crc(cfg["id"] + task["env"])) % 2)
     B = task.get("B", 3)
-    ws = WrapSys(adapter, cfg, flag, scan_len=task.get("scan_len", 3))
+    from jsim.core import construct
+
+    task["flag"] = flag
+    ws = construct(WrapSys, adapter, cfg, flag, scan_len=task.get("scan_len", 3))
     stats = Stats()
     digests: List[int] = []
     nontrivial: List[bool] = []
@@ -623,7 +626,11 @@ def replay(prop: Any, v: Dict[str, Any], path: str) -> int:
     from jsim import envs
 
     adapter = envs.get(v["env"])
-    ws = WrapSys(adapter, v["config"], bool(v["flag"]), int(v.get("scan_len", 3)))
+    from jsim.core import construct
+
+    ws = construct(WrapSys, adapter, v["config"], bool(v.get("flag", False)), int(v.get("scan_len", 3)))
+    if v.get("construction_only"):
+        return 0
     try:
         execute(ws, prop.id, prop.id, v["ops"], Stats())
     except Violation as got:
